@@ -62,7 +62,20 @@ func checkC17(c CaseC17) error {
 	if err != nil {
 		return vt.Failf("ParseRealtime rejected a well-formed message: %v", err)
 	}
-	return compareC17(rgen.Normalize(r), c)
+	got := rgen.Normalize(r)
+	// where the statement leaves a choice (several informed entities with different priorities), the choice must at least be
+	// the same every time the same bytes are parsed
+	first := rgen.JS(got)
+	for i := 0; i < 3 && len(c.Msg.Entities) <= 2000; i++ {
+		r2, err := gtfs.ParseRealtime(c.Msg.Marshal(), &gtfs.ParseRealtimeOptions{Timezone: rgen.Loc(c.Zone), Extension: nyctalerts.Extension(nyctAlertsExt(c.Opts))})
+		if err != nil {
+			return vt.Failf("ParseRealtime rejected the message on a repeated parse: %v", err)
+		}
+		if js := rgen.JS(rgen.Normalize(r2)); js != first {
+			return vt.FailSig("nondeterministic", "options %+v: parsing the same bytes again gives a different result: %s", c.Opts, rgen.FirstDiff(js, first))
+		}
+	}
+	return compareC17(got, c)
 }
 
 // compareC17 checks a parsed result against the reference model of the NYCT alerts extension.
